@@ -43,7 +43,7 @@ theorem negotiation_order (jid pass : Option Bytes) (cert : Bool) (flags : Nat) 
     ∀ r ∈ (exec (fresh jid pass cert flags) ops).tx,
       ((∃ res, r.item = .bind res) ∨ r.item = .session ∨ (∃ x, r.item = .enable x) ∨
         (∃ p h, r.item = .resume p h) → r.snap.g.authOk = true) ∧
-      (r.item = .starttls → r.sec = false) ∧
+      (r.item = .starttls → r.snap.secured = false) ∧
       ((∃ m t, r.item = .auth m t) ∨ (∃ t, r.item = .response t) → r.snap.g.authOk = false) := by
   sorry
 
@@ -79,11 +79,21 @@ theorem no_user_callback_before_connect (jid pass : Option Bytes) (cert : Bool) 
   sorry
 
 /-- FULL-STRENGTH statement (false of the current code, see `send_raw_before_connect`):
-      ∀ r ∈ tx, r.owner = .user → r.snap.negotiated = true
+      ∀ r ∈ tx, r.owner = .user → r.notifiedW = true
+    (nothing the user submits is WRITTEN before CONNECT was delivered on that connection).
     Proved for histories that do not use `xmpp_send_raw`. -/
 theorem no_user_data_before_connect_partial (jid pass : Option Bytes) (cert : Bool) (flags : Nat)
     (ops : List Op) (hn : noSendRaw ops) :
-    ∀ r ∈ (exec (fresh jid pass cert flags) ops).tx, r.owner = .user → r.snap.negotiated = true := by
+    ∀ r ∈ (exec (fresh jid pass cert flags) ops).tx, r.owner = .user → r.notifiedW = true := by
+  sorry
+
+/-- the same at QUEUE time: a user element is queued on a negotiated stream, or (re-queued by a
+    stream-management resumption) on a stream whose session is already confirmed -/
+theorem no_user_data_before_connect_queue_partial (jid pass : Option Bytes) (cert : Bool) (flags : Nat)
+    (ops : List Op) (hn : noSendRaw ops) :
+    ∀ r ∈ (exec (fresh jid pass cert flags) ops).tx, r.owner = .user →
+      r.snap.negotiated = true ∨
+      (r.snap.g.authOk = true ∧ (r.snap.g.bound = true ∨ r.snap.g.resumed = true)) := by
   sorry
 
 /-- `negotiated` and the CONNECT notification go together -/
